@@ -633,7 +633,7 @@ def run_workers(ctx, rng, idx):
 
     def digest(res):
         bf, labels = res
-        return (tuple((k, float(bf[k])) for k in sorted(bf)),
+        return (tuple((k, repr(float(bf[k]))) for k in sorted(bf)),   # NaN == NaN
                 tuple((k, tuple(int(x) for x in labels[k]))
                       for k in sorted(labels)))
 
